@@ -248,6 +248,10 @@ class Sim:
             if pid == 0:
                 return
             self.kids.discard(pid)
+            if pid == self.daemon or pid == self.cleaner:
+                # the process is dead, so everything it reported is already in its socket: handle that before the
+                # exit is announced (a mark written just before a planned kill must not be lost to the monitors)
+                self._final_pump(pid)
             if pid == self.daemon:
                 self.exit_status = st
                 self.emit("exit", who="send", status=st)
@@ -266,6 +270,26 @@ class Sim:
                 self.emit("exit", who="child", pid=pid, status=st)
             if block:
                 return
+
+    def _final_pump(self, pid):
+        if getattr(self, "_in_final_pump", False):
+            return
+        self._in_final_pump = True
+        try:
+            for _ in range(200):
+                self._pump(0)
+                keep = []
+                while self.inbox:
+                    c, m = self.inbox.pop(0)
+                    if c.pid == pid:
+                        self._handle(c, m)
+                    else:
+                        keep.append((c, m))      # traffic of the living stays queued for the normal loop
+                self.inbox.extend(keep)
+                if not any(c.pid == pid for c in self.conns.values()):
+                    break
+        finally:
+            self._in_final_pump = False
 
     # ------------------------------------------------------------------ gate plumbing
     def _accept(self):
